@@ -278,7 +278,8 @@ def gen_names(repo: str) -> str:
         raise Untranslatable(OB + ".orderByRespell", "unrecognised ORDER BY handling in _set_display_names")
 
     ob = _src(_method(df, "orderBy"))
-    if "sqlglot.parse_one(f'{col.expression.sql(dialect=self.session.input_dialect)} " in ob and "into=exp.Ordered)" in ob:
+    # the key text is rendered from the column (with or without its automatic alias) and re-parsed
+    if re.search(r"sqlglot\.parse_one\(f'\{col\.(column_)?expression\.sql\(dialect=self\.session\.input_dialect\)\} ", ob) and "into=exp.Ordered)" in ob:
         order_reparse = True
     elif "parse_one" not in ob:
         order_reparse = False
